@@ -164,6 +164,12 @@ pub fn generate(thorough: bool, seed: u64, part: (usize, usize), em: &mut Emitte
         } } }
     }
     if part.0 == 0 {
+        // an oversized message right after a legal frame whose length is congruent modulo 65536 (and not)
+        for l in &[0usize, 1, 10, 1000] { for k in &[65536usize, 131072] { for gap in &[0usize, 1] {
+            emit(em, "tpkt_writes", &format!("pat:{}:1/pat:{}:2/pat:{}:3", l, l + k + gap, l), "-");
+        } } }
+    }
+    if part.0 == 0 {
         // Link::write itself: no frame limit, every byte of any message must arrive
         for &len in &[0usize, 1, 1500, 65535, 65536, 65537, 70000, 131072, 200000] { for w in &["-", "7,7,7,7,7,7,7,7", "65536,65536,65536,65536", "4096,0,100"] {
             emit(em, "link_write", &format!("pat:{}:6", len), w);
